@@ -2,9 +2,11 @@
 from props import compile_common as cc
 
 LEVEL = 'proof'
-MODULES = ['Pysmi.Props.C07', 'Pysmi.Props.C07Accounted']
-LAKE_TARGETS = ['Pysmi.Props.C07', 'Pysmi.Props.C07Accounted']
+MODULES = ['Pysmi.Props.C07', 'Pysmi.Props.C07Accounted', 'Pysmi.Pins.Compile']
+LAKE_TARGETS = ['Pysmi.Props.C07', 'Pysmi.Props.C07Accounted', 'Pysmi.Pins.Compile']
 THEOREMS = [
+    'Pysmi.Pins.Compile.pin_statuses',
+    'Pysmi.Pins.Compile.pin_skeleton',
     'Pysmi.Compile.C07_total',
     'Pysmi.Compile.C07_one_status',
     'Pysmi.Compile.C07_failed_carry_error',
